@@ -102,12 +102,25 @@ Record fargs := mkFA {
 (* ------------------------------------------------------------------ the user stack (p?memory.c:113-166) *)
 Definition stack_full (k : ustack) (x : Z) : bool := (k_size k <=? x + k_used k).
 
-(* ?user_malloc: None = NULL.  Returns the offset of the block relative to stack.array. *)
+(* ?user_malloc: None = NULL.  Returns the offset of the block relative to stack.array.
+   k_array is the IDENTITY of the buffer (fa_work), not its address: as everywhere in this model (the  off mod 8  of
+   p?gstrf_expand and p?gstrf_WorkInit below, see fa_work) the base address of a user buffer is taken to be 8-byte
+   aligned, so the alignment of the address  stack.array + off  is  off mod 8.
+   TAIL end (since fix 'tail blocks are aligned by the allocator', p?memory.c:132-147):
+     extra = ( address of (stack.array + stack.top2 - bytes) ) & 7;
+     if ( StackFull(bytes + extra) ) return NULL;   bytes += extra;  top2 -= bytes;  buf = array + top2;  used += bytes; *)
+Definition tail_extra (k : ustack) (bytes : Z) : Z := (k_top2 k - bytes) mod 8.
+
 Definition user_malloc (k : ustack) (bytes which_end : Z) : option Z * ustack :=
   if stack_full k bytes then (None, k)
   else if which_end =? HEAD
        then (Some (k_top1 k), mkStack (k_size k) (k_used k + bytes) (k_top1 k + bytes) (k_top2 k) (k_array k))
-       else (Some (k_top2 k - bytes), mkStack (k_size k) (k_used k + bytes) (k_top1 k) (k_top2 k - bytes) (k_array k)).
+       else
+         let extra := tail_extra k bytes in
+         if stack_full k (bytes + extra) then (None, k)
+         else
+           let bytes := bytes + extra in
+           (Some (k_top2 k - bytes), mkStack (k_size k) (k_used k + bytes) (k_top1 k) (k_top2 k - bytes) (k_array k)).
 
 Definition user_free (k : ustack) (bytes which_end : Z) : ustack :=
   if which_end =? HEAD
@@ -333,6 +346,8 @@ Definition work_init_one (s : pstate) (a : fargs) : wres :=
         match q with
         | None => WFail (set_stack s k2) (isize + dsize + fa_n a)
         | Some off =>
+            (* NotDoubleAlign(dwork): since the allocator aligns TAIL blocks itself, mis = 0 here and the fix-up
+               (still in the C code) is dead: PersistProofs.user_malloc_tail_aligned / work_init_one_no_fixup *)
             let mis := off mod 8 in
             let k3 := if mis =? 0 then k2
                       else mkStack (k_size k2) (k_used k2 + mis) (k_top1 k2) (k_top2 k2 - mis) (k_array k2) in
@@ -532,7 +547,11 @@ Fixpoint run (st : pstate * sess) (h : list (bool * op)) : (pstate * sess) * lis
 Record observed := mkObs { ob_exp : bool; ob_ndim : Z; ob_head : Z; ob_tail : Z; ob_array : Z; ob_avail : Z }.
 (* what harness/persist_harness.c:pr_state can see without any hook:
    dexpanders != 0, ndim (through p?gstrf_memory_use(0,0,0)), ?user_malloc(0, HEAD / TAIL) and the largest x with
-   x + used < size  (-1 when even x = 0 is refused) *)
+   x + used < size  (-1 when even x = 0 is refused).
+   NOTE (fix 'tail blocks are aligned by the allocator'): ?user_malloc(0, TAIL) is a neutral probe of top2 only when top2
+   is on an 8-byte boundary; otherwise it returns top2 - top2 mod 8 and takes the slack
+   (PersistProofs.user_malloc_probe_neutral / user_malloc_probe_tail_misaligned).  [observe] keeps reporting the FIELD
+   top2: a harness that probes must do so only when lwork is a multiple of 8 or read the field through a hook. *)
 Definition observe (s : pstate) : observed :=
   let k := ps_stack s in
   mkObs (ps_exp s) (ps_ndim s)
